@@ -538,7 +538,11 @@ func runConcurrent(c *kit.Case) {
 		}
 	}
 
-	env, err := mm.NewEnv(resolve)
+	// the handler yields: widens the window between the state change and the return of Publish/Remove
+	env, err := mm.NewEnvWith(resolve, &mm.Recorder{OnCall: func() {
+		runtime.Gosched()
+		runtime.Gosched()
+	}})
 	if err != nil {
 		c.Inconclusive("cannot create broker: " + err.Error())
 		return
@@ -550,10 +554,6 @@ func runConcurrent(c *kit.Case) {
 	synctest.Wait()
 	time.Sleep(time.Duration(r.Range(1, 999)) * time.Millisecond)
 	now := time.Now().UnixMilli()
-	env.Rec.OnCall = func() { // widen the window between the state change and the return of Publish/Remove
-		runtime.Gosched()
-		runtime.Gosched()
-	}
 
 	var clock atomic.Int64
 	var mu sync.Mutex
@@ -787,7 +787,7 @@ func TestC20(t *testing.T) {
 			"idempotency check precedes the version/key-mode/CAS checks and a hit reports the cached position of the original operation",
 			"only the in-memory map broker is covered",
 		},
-		Cases:  map[string]int{"quick": 6000, "thorough": 90000},
+		Cases:  map[string]int{"quick": 6000, "thorough": 60000},
 		Bubble: true,
 		RequireCounters: []string{
 			"suppress_idempotency", "suppress_version", "suppress_key_exists", "suppress_key_not_found", "suppress_position_mismatch",
